@@ -277,13 +277,15 @@ func sprintf(fr *frame, format string, args []value) value {
 			break
 		}
 		plus := false
-		// flags / width / precision (ignored except '+' and '#')
+		specStart := i
+		// flags / width / precision
 		for i < len(format) && strings.IndexByte("+-# 0123456789.", format[i]) >= 0 {
 			if format[i] == '+' {
 				plus = true
 			}
 			i++
 		}
+		spec := format[specStart:i]
 		if i >= len(format) {
 			break
 		}
@@ -296,6 +298,19 @@ func sprintf(fr *frame, format string, args []value) value {
 		if ai >= len(args) {
 			out = append(out, lit("%!"+string(verb)+"(MISSING)")...)
 			continue
+		}
+		if spec != "" && spec != "+" {
+			// width / padding / precision: exact for concrete scalars via native fmt
+			if it, ok := args[ai].(iface); ok && it.t != nil {
+				switch x := it.v.(type) {
+				case int, int8, int16, int32, int64, uint, uint8, uint16, uint32, uint64, uintptr, float32, float64, string, bool:
+					if !(isErrorType(it.t) || isStringerType(it.t)) {
+						out = append(out, lit(fmt.Sprintf("%"+spec+string(verb), x))...)
+						ai++
+						continue
+					}
+				}
+			}
 		}
 		out = append(out, renderArg(fr, verb, plus, args[ai], 0)...)
 		ai++
